@@ -1,0 +1,40 @@
+// Copyright 2022 Dimitrij Drus <dadrus@gmx.de>
+//
+// Licensed under the Apache License, Version 2.0 (the "License");
+// you may not use this file except in compliance with the License.
+// You may obtain a copy of the License at
+//
+//      http://www.apache.org/licenses/LICENSE-2.0
+//
+// Unless required by applicable law or agreed to in writing, software
+// distributed under the License is distributed on an "AS IS" BASIS,
+// WITHOUT WARRANTIES OR CONDITIONS OF ANY KIND, either express or implied.
+// See the License for the specific language governing permissions and
+// limitations under the License.
+//
+// SPDX-License-Identifier: Apache-2.0
+
+package hashx
+
+import (
+	"encoding/binary"
+	"io"
+
+	"github.com/dadrus/heimdall/internal/x/stringx"
+)
+
+// WriteStrings writes the given values to w, each one preceded by its length. That way, the
+// boundaries between the values contribute to the resulting hash, and e.g. ("ab", "c") and
+// ("a", "bc") do not end up in the same hash value.
+func WriteStrings(w io.Writer, values ...string) {
+	const int64BytesCount = 8
+
+	length := make([]byte, int64BytesCount)
+
+	for _, value := range values {
+		binary.LittleEndian.PutUint64(length, uint64(len(value)))
+
+		w.Write(length)                 //nolint:errcheck
+		w.Write(stringx.ToBytes(value)) //nolint:errcheck
+	}
+}
